@@ -29,6 +29,46 @@ type LockSpec struct {
 	Type    string          // e.g. "SFid"
 	Guarded map[string]bool // fields that must be accessed under the lock
 	Iface   map[string]bool // interface types whose methods are "file-system calls" when invoked on values loaded from guarded fields
+	// Written: leaf paths (e.g. "Info.Qid.Version") stored to after construction. When non-nil, an unlocked READ is
+	// reported only if its path overlaps a written path (distinct words that are never written cannot race).
+	Written map[string]bool
+}
+
+func pathsOverlap(a, b string) bool {
+	return a == b || strings.HasPrefix(a, b+".") || strings.HasPrefix(b, a+".")
+}
+
+// writtenPaths scans fns for stores into guarded fields of non-fresh objects.
+func writtenPaths(spec LockSpec, fns []*ssa.Function) map[string]bool {
+	out := map[string]bool{}
+	for _, fn := range fns {
+		eachInstr(fn, func(in ssa.Instruction) {
+			st, ok := in.(*ssa.Store)
+			if !ok {
+				return
+			}
+			var names []string
+			addr := st.Addr
+			for {
+				fa, ok := addr.(*ssa.FieldAddr)
+				if !ok {
+					return
+				}
+				names = append([]string{fieldName(fa.X.Type(), fa.Field)}, names...)
+				if p, ok := fa.X.Type().Underlying().(*types.Pointer); ok && isNamed(p.Elem(), spec.PkgPath, spec.Type) {
+					if a, isAlloc := fa.X.(*ssa.Alloc); isAlloc && a.Parent() == fn {
+						return // construction of a fresh object
+					}
+					if spec.Guarded[names[0]] {
+						out[strings.Join(names, ".")] = true
+					}
+					return
+				}
+				addr = fa.X
+			}
+		})
+	}
+	return out
 }
 
 type tsDefer struct {
@@ -574,7 +614,7 @@ func (ts *TS) step(c *tsCtx, s *tsState, in ssa.Instruction, depth int) []*tsSta
 		}
 		// other deferred calls: treated as calls at rundefers time with no lock effect unless summarised
 		if f := staticCallee(&x.Call); f != nil && ts.p.InModule(f) {
-			if sum := ts.summary(f); sum != nil && sum.touchesLocks {
+			if sum := ts.summary(f); sum != nil && sum.touchesLocks && (sum.returnsLocked || len(sum.requiresHeld) > 0 || sum.acquiresTable) {
 				ts.violate("typestate/unsupported", fnName(c.fn)+": deferred call of lock-affecting function "+fnName(f), x.Pos(), "deferred call with lock effects is not modelled: undecided")
 			}
 		}
@@ -793,6 +833,29 @@ func fnAcquiresShared(ts *TS, f *ssa.Function) bool {
 // fieldAccess checks E7a for loads/stores through &x.<guarded field>.
 func (ts *TS) fieldAccess(c *tsCtx, s *tsState, addr ssa.Value, in ssa.Instruction, kind string) {
 	fa, ok := addr.(*ssa.FieldAddr)
+	// nested fields (x.Info.Qid.Version): walk up to the guarded field of the token
+	var pathNames []string
+	for ok && !ts.isTokPtr(fa.X.Type()) {
+		pathNames = append([]string{fieldName(fa.X.Type(), fa.Field)}, pathNames...)
+		switch up := fa.X.(type) {
+		case *ssa.FieldAddr:
+			fa = up
+		default:
+			ok = false
+		}
+	}
+	if ok && ts.spec.Written != nil && kind == "read" {
+		full := strings.Join(append([]string{fieldName(fa.X.Type(), fa.Field)}, pathNames...), ".")
+		overl := false
+		for w := range ts.spec.Written {
+			if pathsOverlap(full, w) {
+				overl = true
+			}
+		}
+		if !overl {
+			return // never written after construction: an unlocked read cannot race
+		}
+	}
 	if !ok || !ts.isTokPtr(fa.X.Type()) {
 		return
 	}
